@@ -49,6 +49,27 @@ def showLock : LockEv → String
 def stepStore (st : St) (toks : List String) : Option (St × String) :=
   match toks with
   | ["store", "reset"] => some (St.init, "ok")
+  -- read-only queries derived from the registry lookup (one read section each)
+  | [pfx, "eq", i, j] =>
+    if pfx == "store" || pfx == "storelk" then
+      match i.toNat?, j.toNat? with
+      | some i, some j =>
+        let ans := match valueAt st i, valueAt st j with
+          | some a, some b => if a == b then "true" else "false"
+          | _, _ => "err-notfound"
+        some (st, if pfx == "storelk" then ans ++ " R+R-" else ans)
+      | _, _ => none
+    else none
+  | [pfx, "isempty", i] =>
+    if pfx == "store" || pfx == "storelk" then
+      match i.toNat? with
+      | some i =>
+        let ans := match valueAt st i with
+          | some a => if a.rs.isEmpty then "true" else "false"
+          | none => "err-notfound"
+        some (st, if pfx == "storelk" then ans ++ " R+R-" else ans)
+      | none => none
+    else none
   | "store" :: rest =>
     match storeCall rest with
     | some c => let r := step st c; some (r.1, showOut r.2)
